@@ -62,6 +62,13 @@ fn generate_mask(regs: &[&AllocatedRegister]) -> (VirtualImmediate24, VirtualImm
 
 impl AllocatedAbstractInstructionSet {
     pub(crate) fn optimize(self) -> AllocatedAbstractInstructionSet {
+        // Verification hook H2 (allocated part): `SWAY_VERIF_NO_ALLOC_OPT` skips the
+        // post-allocation clean-ups.
+        #[cfg(fuellabs_sway_verif)]
+        if std::env::var_os("SWAY_VERIF_NO_ALLOC_OPT").is_some() {
+            return self;
+        }
+
         self.remove_redundant_sp_move_to_locbase()
             .remove_redundant_ops()
     }
